@@ -16,6 +16,7 @@ RULE = (
     "detach_test_caches} plus skip_posterior_variances / fast_computations triples / memory_efficient / trace_mode / pivoted-Cholesky-preconditioned CG (min_preconditioning_size 1), directed large-n CG cases (n = 120, 200: tolerance-limited solves), crossed pairwise-randomly with kernels x means "
     "x likelihoods x shapes x batch patterns (+ Kronecker multitask models); hyper-parameters drawn per batch element; distinct = "
     "distinct cell (everything but the seed); non-trivial iff posterior differs from the prior by > 1e-3 in mean or covariance"
+    '; pass 5: cases under default dtype float32 (model moved with .double()) and under no_grad / inference_mode'
 )
 REQUIRED = ["posterior_mean", "posterior_covar", "likelihood_adds_noise", "mean_cache", "path:linear_cg", "path:exact_predictive_covar"]
 ASSUMPTIONS = [
